@@ -276,6 +276,19 @@ func (x *sioCtx) edit(i int, op Op) string {
 		}
 		x.doc = nd
 		x.lastPath = ""
+	case "openodd":
+		// origin class "opened from a package with degenerate parts" (x_saveio_odd.go)
+		b, err := sioOddForeign()
+		if err != nil {
+			fmt.Fprintln(os.Stderr, "saveio: cannot synthesise the odd package:", err)
+			os.Exit(2)
+		}
+		nd, err := document.OpenFromMemory(io.NopCloser(bytes.NewReader(b)))
+		if err != nil {
+			return "err"
+		}
+		x.doc = nd
+		x.lastPath = ""
 	case "para":
 		d.AddParagraph("paragraph " + tok)
 	case "heading":
@@ -300,6 +313,11 @@ func (x *sioCtx) edit(i int, op Op) string {
 		}
 	case "bigimage":
 		if _, err := d.AddImageFromData(sioNoisePNG(seed*100+int64(i), 260, 260), tok+".png", document.ImageFormatPNG, 260, 260, nil); err != nil {
+			return "err"
+		}
+	case "hugeimage":
+		// size class beyond a quarter / half of a MiB (about 600 KB of incompressible pixels in one part)
+		if _, err := d.AddImageFromData(sioNoisePNG(seed*100+int64(i), 450, 450), tok+".png", document.ImageFormatPNG, 450, 450, nil); err != nil {
 			return "err"
 		}
 	case "midimage":
@@ -411,6 +429,7 @@ func sioMinimalForeign(tok string) ([]byte, error) {
 type sioTarget struct {
 	class  string
 	path   string
+	cwd    string // "" or the working directory the (relative) path is meant for
 	outDir string // for BatchConvert: the output directory; the input is named after the file
 	reset  func() // re-establishes the class before every call
 	done   func()
@@ -459,10 +478,56 @@ func (x *sioCtx) target(class string) *sioTarget {
 	case "isdir":
 		t.path = filepath.Join(base, "out.docx")
 		t.reset = func() { os.MkdirAll(t.path, 0o755) }
+	// ---- spellings of a path to a new regular file (SaveIO.tla, PathForms / DirOf); the strings are composed by hand,
+	// filepath.Join would clean them
+	case "relative":
+		t.cwd = base
+		t.path = "a/out.docx"
+		t.reset = func() { os.RemoveAll(filepath.Join(base, "a")) }
+	case "dotdot":
+		t.path = base + "/a/../b/out.docx"
+		t.reset = func() { os.MkdirAll(filepath.Join(base, "a"), 0o755); os.RemoveAll(filepath.Join(base, "b")) }
+	case "unclean":
+		t.path = base + "/.//a/./b//out.docx"
+		t.reset = func() { os.RemoveAll(filepath.Join(base, "a")) }
+	case "vialink":
+		t.path = base + "/link/sub/out.docx"
+		t.reset = func() {
+			os.MkdirAll(filepath.Join(base, "store"), 0o755)
+			os.RemoveAll(filepath.Join(base, "store", "sub"))
+			os.Remove(filepath.Join(base, "link"))
+			os.Symlink("store", filepath.Join(base, "link"))
+		}
+	case "linkdotdot":
+		t.path = base + "/link/../out.docx"
+		t.reset = func() {
+			os.MkdirAll(filepath.Join(base, "store", "deep", "sub"), 0o755)
+			os.Remove(filepath.Join(base, "store", "deep", "out.docx"))
+			os.Remove(filepath.Join(base, "out.docx"))
+			os.Remove(filepath.Join(base, "link"))
+			os.Symlink("store/deep/sub", filepath.Join(base, "link"))
+		}
+	case "linktofile":
+		t.path = base + "/out.docx"
+		t.reset = func() {
+			os.MkdirAll(filepath.Join(base, "store"), 0o755)
+			os.WriteFile(filepath.Join(base, "store", "real.docx"), sioOld, 0o644)
+			os.Remove(t.path)
+			os.Symlink("store/real.docx", t.path)
+		}
+	case "danglinglink":
+		t.path = base + "/out.docx"
+		t.reset = func() {
+			os.MkdirAll(filepath.Join(base, "store"), 0o755)
+			os.Remove(filepath.Join(base, "store", "new.docx"))
+			os.Remove(t.path)
+			os.Symlink("store/new.docx", t.path)
+		}
 	default:
 		return nil
 	}
-	t.outDir = filepath.Dir(t.path)
+	// the directory part of the string, taken literally
+	t.outDir = t.path[:strings.LastIndex(t.path, "/")]
 	return t
 }
 
@@ -502,7 +567,21 @@ type sioRef struct{ n0, dirstart, cmax int }
 func (x *sioCtx) call(via string, t *sioTarget, k int, ref *sioRef, tbAfter bool) Ev {
 	t.reset()
 	defer t.done()
-	ev := Ev{"ev": "save", "case": x.c.ID, "via": via, "target": t.class, "k": k, "tbwhen": "before"}
+	if t.cwd != "" {
+		// the harness executes one behaviour at a time per process, so the working directory is ours
+		old, err := os.Getwd()
+		if err != nil || os.Chdir(t.cwd) != nil {
+			fmt.Fprintln(os.Stderr, "saveio: cannot change the working directory:", err)
+			os.Exit(2)
+		}
+		defer func() {
+			if os.Chdir(old) != nil {
+				fmt.Fprintln(os.Stderr, "saveio: cannot restore the working directory")
+				os.Exit(2)
+			}
+		}()
+	}
+	ev := Ev{"ev": "save", "case": x.c.ID, "via": via, "target": t.class, "k": k, "tbwhen": "before", "conc": 0}
 	if tbAfter {
 		ev["tbwhen"] = "after"
 	}
@@ -647,6 +726,15 @@ func sioOffsets(n0, points, edge int) []int {
 
 func sioPermClass(class string) bool { return class == "rodir" || class == "rofile" }
 
+// classes whose target is a regular file the call may write: the only ones where a limit on the file size means something
+func sioSweepable(class string) bool {
+	switch class {
+	case "newdir", "existing", "relative", "dotdot", "unclean", "vialink", "linkdotdot", "linktofile", "danglinglink":
+		return true
+	}
+	return false
+}
+
 // sioUnprivileged re-executes the whole behaviour in a child process running as "nobody" and
 // returns the observations of its permission-dependent saves; nil if that is not possible here.
 func sioUnprivileged(c Case) []Ev {
@@ -740,7 +828,7 @@ func runSaveIO(c Case, emit Emitter, onlyPerm bool) {
 		// unfaulted reference save of the same document through the same entry point: gives the layout
 		// (not for "resave": the call under test must be the first Save since the one that wrote the file)
 		ref := &sioRef{}
-		if class != "resave" {
+		if class != "resave" && op.Str("plan") != "conc" {
 			rt := x.target("newdir")
 			emit(x.call(via, rt, -1, ref, true))
 		}
@@ -752,7 +840,14 @@ func runSaveIO(c Case, emit Emitter, onlyPerm bool) {
 		if class == "device" && via == "Save" {
 			t.path, t.reset = "/dev/full", func() {} // the device itself; the other entry points reach it through a link
 		}
-		if op.Str("plan") == "sweep" && ref.n0 > 0 && (class == "newdir" || class == "existing") {
+		if op.Str("plan") == "conc" {
+			for _, e := range x.concurrent(t, op.Int("rounds"), op.Int("others")) {
+				emit(e)
+			}
+			x.lastPath = ""
+			continue
+		}
+		if op.Str("plan") == "sweep" && ref.n0 > 0 && sioSweepable(class) {
 			for _, k := range sioOffsets(ref.n0, op.Int("points"), op.Int("edge")) {
 				emit(x.call(via, t, k, ref, false))
 			}
